@@ -1,7 +1,9 @@
 (* C07 — Global declarations are reported completely, later declarations winning.
-   Model: Dec/Queries.v (+ the dictionaries of Dec/Post.v).  Statement-list level; front end as C01. *)
+   Model: Dec/Queries.v (+ the dictionaries of Dec/Post.v).  Statement-list level, then about texts (C07_text_level: the
+   statements "anywhere in the text", in every layout, over the front-end model of C02; tied to Lark by correspondence). *)
 From Coq Require Import String List Bool ZArith QArith Permutation.
-From DL Require Import Lib.Val Lib.PyDict Lib.Sort Dec.Num Dec.Syntax Dec.Post Dec.PostProofs Dec.Queries Dec.QueriesProofs.
+From DL Require Import Lib.Val Lib.PyDict Lib.Sort Dec.Num Dec.Syntax Dec.Post Dec.PostProofs Dec.Queries Dec.QueriesProofs
+  Dec.Layout Dec.ItemParser Dec.FrontEnd Dec.LayoutProofs Dec.ItemParserProofs Dec.FrontEndProofs Dec.Whole Gen.GenLayout.
 Import ListNotations.
 Close Scope Q_scope.
 Open Scope string_scope.
@@ -78,3 +80,24 @@ Example C07_example :
 Proof. vm_compute. repeat split; eexists; repeat split. Qed.
 Print Assumptions C07_queries_are_such_dictionaries.
 Print Assumptions C07_particle_width.
+
+(* about texts: s is any spelling of any layout of the statement list f — the declarations anywhere among the other
+   statements.  The text is read to f, so every query answers as the theorems above say of f: e.g. the flat dictionaries hold,
+   for every name, its last declaration in the text, and the global PHOTOS flag is the last one given (off when absent). *)
+Theorem C07_text_level : forall f its s,
+  file_items (lc_kind gen_cfg) (lc_alts gen_cfg) f its -> spell (lc_label gen_cfg) (lc_ws gen_cfg) its s ->
+  parse_text gen_cfg s = Some f /\
+  (forall k, option_map (fun g => pd_get k (aliases_of g)) (parse_text gen_cfg s)
+             = Some (assoc_last k (flat_map (fun st => match st with SAlias a b => [(a, b)] | _ => [] end) f))) /\
+  (forall k, option_map (fun g => pd_get k (defs_of g)) (parse_text gen_cfg s)
+             = Some (assoc_last k (flat_map (fun st => match st with SDefine n lit => [(n, numq lit)] | _ => [] end) f))) /\
+  option_map q_photos (parse_text gen_cfg s) = Some (match rev (photos_flags f) with b :: _ => b | [] => false end).
+Proof.
+  intros f its s F Sp. rewrite (parse_text_layout gen_cfg f its s whole_photos_plain F Sp). cbn [option_map].
+  destruct (C07_queries_are_such_dictionaries f) as (Ea & _ & Ed & _).
+  split; [reflexivity|]. split; [|split].
+  - intros k. rewrite Ea, pd_of_list_last. reflexivity.
+  - intros k. rewrite Ed, pd_of_list_last. reflexivity.
+  - rewrite photos_last_flag. reflexivity.
+Qed.
+Print Assumptions C07_text_level.
